@@ -30,7 +30,7 @@ PROP = dict(
     assumptions=["StringWriter::pput offsets are <= 4160 or >= 2^63: offsets in between would really allocate up to 2^63 bytes, which ASan's operator new answers by aborting (an artefact of the sanitizer build, not of phosg); the design's lower limit 2^62 was raised to 2^63 because std::string::max_size() is 2^63-1 here",
                  "BitReader reads are unchecked by design: only the extent (size) and content of bit sub-readers is checked",
                  "get<T>(advance, size) / pget<T>(offset, size) are called with size >= sizeof(T) only",
-                 "destination buffers handed to read/pread(void*) hold exactly the in-range prefix, those handed to readx/preadx(void*) and the source handed to pwrite/write/skip_if hold min(size, n+1) bytes when the request is out of range (a correct implementation validates before copying)",
+                 "destination buffers handed to the clamping read/pread(void*, size) are `size` bytes large (the caller owns what it announces; sizes above 1 MiB are not passed to these two forms - counted as excluded - offsets are unrestricted), what the call leaves in the part it does not fill is not judged; those handed to readx/preadx(void*) and the source handed to pwrite/write/skip_if hold min(size, n+1) bytes when the request is out of range (a correct implementation validates before copying)",
                  "where the empty reader that a clamping sub() returns points to is not specified (pointer identity of pgetv/getv/peek is not checked inside it)",
                  "the const std::string& and shared_ptr<string> constructors read a std::string's buffer, which ASan guards less exactly than the exactly-sized heap block of the (pointer, size) form; values, exceptions and extents are compared all the same",
                  "where the cursor is after truncate() is not stated: truncate() below the cursor may leave it (it then counts, like go(), as an explicit way of placing the cursor beyond the end) or pull it back into the shortened data; the model continues from the reported position"],
